@@ -7,6 +7,10 @@ dst = "/verif/seeded/%s-%s" % (P, V)
 os.makedirs(dst, exist_ok=True)
 shutil.copy(os.path.join(src, "mutant_%s.diff" % V), os.path.join(dst, "patch.diff"))
 shutil.copy(os.path.join(src, "demo_%s.py" % V), os.path.join(dst, "demo.py"))
+cdiff = os.path.join(src, "mutant_%s.c.diff" % V)
+if os.path.exists(cdiff) and os.path.getsize(cdiff) > 0:
+    # the mutant (also) patches a generated C file (no Cython in the sandbox): apply with `patch -p0` from the repo root, see tools/eval_cmutant.py
+    shutil.copy(cdiff, os.path.join(dst, "patch.c.diff"))
 readme = open(os.path.join(src, "README.md")).read()
 open(os.path.join(dst, "agent_README.md"), "w").write(readme)
 json.dump({"property": P, "variant": V, "needs_to_manifest": needs, "detected_by_check": caught == "yes", "what_was_run": ran,
